@@ -67,6 +67,17 @@ impl Callback for CsvDump {
             in_count: 0,
             out_count: 0,
         };
+        // row totals of a run that has already written `RBP_VERIF_PRESET_COUNT` rows of each kind (billions of rows
+        // cannot be produced in a test; the counters can start there)
+        #[cfg(rbp_verif)]
+        let cb = {
+            let mut cb = cb;
+            let preset = crate::verif::preset_count();
+            cb.tx_count = preset as _;
+            cb.in_count = preset as _;
+            cb.out_count = preset as _;
+            cb
+        };
         Ok(cb)
     }
 
